@@ -185,7 +185,7 @@ def run(ctx):
     rng = ctx.rng
     ctx.cov["rule"] = ("a case is one scripted typed output of one operation (with status override / extra headers) observed as a raw response, or one "
                        "keep-alive completion at one delay; distinct = distinct (operation, member set, status, outcome)")
-    r = ctx.coq(imports=IMPORTS)
+    r = ctx.coq(imports=sorted(set(IMPORTS + C13.IMPORTS + ["model.Timestamp"])))
     if not r["ok"]:
         ctx.violation(dict(stage="proof", kind="theorem or table obligation broken", issues=r["issues"]), has_input=False)
     T = C02.Tables()
